@@ -8,6 +8,7 @@ import Penguin.Lemmas.MuxBasic
 import Penguin.Lemmas.MuxStep
 import Penguin.Lemmas.PairCor
 import Penguin.Lemmas.MuxBound
+import Penguin.Lemmas.MuxOnce
 
 namespace Penguin.C07
 open Penguin Penguin.Mux
@@ -110,6 +111,26 @@ theorem simultaneous_open_collision (e : EP) (fid req rwnd port : Nat) (host : B
 theorem flow_id_zero_never_in_use (o : Opts) (ops : List Mux.Op) :
     lookup (runOps { opts := o } ops).flows 0 = none :=
   (reachable_bnd o ops).zero
+
+/-- Each stream request is answered at most once — with a stream, `FlowIdRejected` or `Closed` — and
+    nothing is answered that was not asked: for every history of stimuli of one endpoint (application
+    calls, deliveries of anything a peer may send, faults, the wind-down) in which request numbers
+    are not reused, the `openDone` events of the whole history are pairwise distinct requests, each
+    one started by the history. (`Lemmas/MuxOnce.lean`: a relation on (state, later state, events in
+    between) proved for every event-emitting function of the endpoint model.) -/
+theorem each_request_answered_at_most_once (o : Opts) (ops : List Mux.Op) (h : (opensOf ops).Nodup) :
+    (doneReqs (runOpsEv { opts := o } ops).2).Nodup ∧
+    ∀ r, r ∈ doneReqs (runOpsEv { opts := o } ops).2 → r ∈ opensOf ops :=
+  answered_at_most_once o ops h
+
+/-! Non-vacuity: request 1 is acknowledged (a stream), request 2 is reset three times (the retries
+    run out: `FlowIdRejected`), request 3 is still pending when the peer closes (`Closed`). -/
+private def hops : List Mux.Op :=
+  [.open 1 [97] 80, .open 2 [98] 81, .deliver (.msg (.frame (.acknowledge 7 4))),
+   .deliver (.msg (.frame (.reset 8))), .deliver (.msg (.frame (.reset 9))), .deliver (.msg (.frame (.reset 10))),
+   .open 3 [99] 82, .deliver (.msg .close)]
+example : opensOf hops = [1, 2, 3] := by decide
+example : doneReqs (runOpsEv { opts := { maxRetries := 3 }, rng := [7, 8, 9, 10, 11, 12] } hops).2 = [1, 2, 3] := by decide
 
 /-! Non-vacuity -/
 example : (appOpen { opts := {}, rng := [0, 5] } 1 [0x61] 80).1.outq
